@@ -7,3 +7,4 @@ for s in $seeds; do for c in $checks; do
   echo "seed=$s $c rc=$rc $(echo "$out" | grep -v '^State\|^l = ' | tail -1 | cut -c1-200)"
   [ $rc != 0 ] && echo "$out" | grep -E " x |MACHINERY|Traceback|Error" | head -5
 done; done
+exit 0
